@@ -347,11 +347,78 @@ func genPool(g *hx.Gen, r *hx.Rand) {
 	g.Emit("mp %s", strings.Join(txs, " "))
 }
 
+// V2: for 3, 5 and 12 arbiters every signer-subset size 0..n, with the program built from the real aggregate
+// of exactly that subset, of a subset one arbiter short, and with a threshold just met / just missed.
+func genV2Subsets(g *hx.Gen, r *hx.Rand) {
+	for _, n := range []int{3, 5, 12} {
+		keys := shuffle(r, []int{1, 2, 3, 4, 5, 6, 7, 8, 9, 10, 11, 12, 13, 14, 15})[:n]
+		var cross []arb
+		for _, k := range keys {
+			cross = append(cross, arb{k, true})
+		}
+		for k := 0; k <= n; k++ {
+			idx := shuffle(r, []int{0, 1, 2, 3, 4, 5, 6, 7, 8, 9, 10, 11}[:n])[:k]
+			sum := 0
+			for _, i := range idx {
+				sum += cross[i].key
+			}
+			for _, variant := range []int{0, 1, 2} {
+				member := n
+				progKey := sum
+				switch variant {
+				case 1: // the script of a different subset
+					progKey = sum + cross[(k)%n].key
+				case 2: // threshold one above the subset size
+					member = (k+1)*3/2 + 1
+				}
+				w := &wtx{pver: 2, oh: []int{1}, sg: idx, refs: []int{1}, progs: []prog{{kind: "S", sKey: progKey}}}
+				for _, h := range []int{15, 21, 22, 40} { // the three threshold eras and above the restriction height
+					g.Emit("chk %d cfg=100,20,22,35,%d,2,2 arbs=- crc=- cross=%s cc=%d maj=%d wd=- %s", h, member, fmtArbs(cross), n, n*2/3, fmtTx(w))
+				}
+			}
+		}
+	}
+}
+
+// V0 / V1: every era (below CRClaimDPOSNodeStartHeight, between, from DPOSNodeCrossChainHeight on, above
+// SchnorrStartHeight) x m around the required count x n around the arbiter count.
+func genEraGrid(g *hx.Gen) {
+	cross := []arb{{5, true}, {7, true}, {11, true}, {3, false}}
+	arbs := []arb{{5, true}, {7, true}, {11, true}}
+	crc := []arb{{5, true}, {7, true}}
+	for _, pver := range []int{0, 1} {
+		for _, h := range []int{9, 10, 11, 19, 20, 21, 29, 30, 31} { // crClaim 10, dposCross 20, schnorr 30
+			for dm := -1; dm <= 1; dm++ {
+				for dn := -1; dn <= 1; dn++ {
+					var m, n int
+					switch {
+					case pver == 0 && h < 10:
+						n, m = 3+dn, 2+1+dm // n = crossCount, m > majority (2)
+					case h >= 20:
+						n, m = 3+dn, 2+1+dm // normal arbitrators count 2, +1
+					default:
+						n, m = 2+dn, 2+dm // CRC arbiters 2, agreement count 2
+					}
+					w := &wtx{pver: pver, refs: []int{1}, progs: []prog{{kind: "M", ok: true, m: m, n: n, keys: []int{11, 5, 7}}}}
+					if pver == 0 {
+						w.ph = []int{1}
+					} else {
+						w.oh = []int{1}
+					}
+					g.Emit("chk %d cfg=30,10,20,50,3,2,2 arbs=%s crc=%s cross=%s cc=3 maj=2 wd=- %s", h, fmtArbs(arbs), fmtArbs(crc), fmtArbs(cross), fmtTx(w))
+				}
+			}
+		}
+	}
+}
+
 func gen(g *hx.Gen) {
+	genV2Subsets(g, g.R.Fork(4000000))
+	genEraGrid(g)
 	for i := 0; i < g.N(300, 3000); i++ {
 		genPool(g, g.R.Fork(uint64(3000000+i)))
 	}
-	for i := 0; i < g.N(150, 1500); i++ {
+	for i := 0; i < g.N(60, 1500); i++ {
 		genFlow(g, g.R.Fork(uint64(2000000+i)))
 	}
 	for i := 0; i < g.N(6000, 120000); i++ {
